@@ -520,6 +520,20 @@ def layout(rng, items, style='random', final_newline=None, header=None):
                     sep = rng.choice([b'\n', b'\n', b'\n  ', b'\n\n', b'  \n\t', b' \n', b'\n\n\n ', b' -- c\n'])
                 else:
                     sep = b' ' if (sep_needed or rng.random() < 0.7) else b''
+            elif style == 'elements':
+                # one statement per line, and bracketed lists may be broken one element per line: a line break may also follow an
+                # opening bracket or a list comma and precede a closing bracket
+                brk = prev.text in (b'(', b'{', b'[', b',') or it.text in (b')', b'}', b']')
+                if nl_ok and (it.kind == 'stat-start' or (brk and rng.random() < 0.45)):
+                    sep = rng.choice([b'\n', b'\n', b'\n  ', b'\n\n', b'  \n\t', b' \n'])
+                else:
+                    sep = b' ' if (sep_needed or rng.random() < 0.7) else b''
+            elif style == 'breaks':
+                # line breaks (no comments) before any token that may start a line: closing brackets, operators, arguments, ...
+                if nl_ok and (it.kind == 'stat-start' or rng.random() < 0.3):
+                    sep = rng.choice([b'\n', b'\n', b'\n  ', b'\n\n', b'  \n\t', b' \n'])
+                else:
+                    sep = b' ' if (sep_needed or rng.random() < 0.7) else b''
             elif style == 'spaced':
                 sep = rng.choice([b' ', b' ', b'  ', b'\t']) if (sep_needed or rng.random() < 0.8) else b''
             else:
